@@ -57,7 +57,7 @@ def channel(draw, has_bnodes):
 @st.composite
 def cases(draw):
     bn = draw(st.integers(0, 3)) == 0
-    g = draw(gg.general(bnodes=bn, max_stmts=24))
+    g = draw(gg.general(bnodes=bn, max_stmts=24, quirks=draw(gg.quirk_set(one_in=3))))
     # sprinkle literals whose content looks like markup
     extra = draw(st.lists(st.tuples(st.integers(0, 5), st.integers(0, 2), st.sampled_from(SPECIAL_LEX), st.sampled_from(["", "", "en"])), max_size=3))
     subs = [t[0] for t in g["triples"] if t[1] == RDF_TYPE] or [t[0] for t in g["triples"]]
@@ -220,6 +220,8 @@ def check(case):
             try:
                 got = oracle.read_canon(text, inst_prop)
             except oracle.shexc.ShExCError as e:
+                if oracle.is_bnode_valueset_finding(text, e, cfg, triples, inst_prop):
+                    return known("C05-BNODEVALUESET", str(e), labels, nt)
                 return violation("%s: output does not parse (%s)\n%s" % (desc, e, text), labels, nt)
             viol, k = c09.compare_docs(ref, got, M, label_of, thr, cfg.get("keep_less_specific", True), (ref_text, text),
                                        cfg.get("disable_exact_cardinality", False))
